@@ -207,3 +207,70 @@ func vfH_C15_refused() {
 	vfAssert(vfDecodeMatches(shown, cur), "C15: the reply to a refused request does not carry the current value")
 	vfReach("end")
 }
+
+// C15_unlock: value operations carried by UNLOCK and by re-entrant LOCK requests: on every such
+// path the reply must carry the value from before the operation and the stored value must be the
+// interpreter's result.  Paths: plain unlock (depth 1); re-entrant re-lock; unlock of one level of
+// a depth-2 hold; unlock of all levels of a depth-2 hold at once.
+func init() { vfHarnesses["C15_unlock"] = vfH_C15_unlock }
+
+func vfH_C15_unlock() {
+	env := vfNewEnv(1)
+	key := vfKey(1)
+	v0 := vfBytes("v0", vfRange("n0", 1, 3))
+	c := env.newCmd(protocol.COMMAND_LOCK, key, vfLockId(1))
+	c.Flag, c.Count, c.Rcount, c.Expried, c.ExpriedFlag = protocol.LOCK_FLAG_CONTAINS_DATA, 0xffff, 3, 100, 0x0200
+	c.Data = protocol.NewLockCommandDataSetData(v0)
+	env.lock(0, c)
+	// a second holder keeps the key (and its value) alive whatever the first one does
+	k := env.newCmd(protocol.COMMAND_LOCK, key, vfLockId(9))
+	k.Count, k.Expried, k.ExpriedFlag = 0xffff, 100, 0x0200
+	env.lock(0, k)
+	cur := vfValue{kind: vfVBytes, b: v0}
+	opData := func(name string) (*protocol.LockCommandData, vfValue) {
+		b := vfBytes(name, vfRange(name+".n", 1, 2))
+		if vfChoice(name+".k", 2) == 0 {
+			return protocol.NewLockCommandDataSetData(b), vfValue{kind: vfVBytes, b: b}
+		}
+		return protocol.NewLockCommandDataAppendData(b), vfValue{kind: vfVBytes, b: append(append([]byte(nil), cur.b...), b...)}
+	}
+	check := func(what string, n int, next vfValue) {
+		vfAssert(len(env.replies) == n+1 && env.replies[n].result == protocol.RESULT_SUCCED, "C15: "+what+" carrying a value operation was refused")
+		r := env.replies[n]
+		var before []byte
+		if r.hasData {
+			before = r.data
+		}
+		vfAssert(vfDecodeMatches(before, cur), "C15: the reply to "+what+" does not carry the value from immediately before the operation")
+		vfAssert(vfDecodeMatches(env.manager(key).GetLockData(), next), "C15: after "+what+" the stored value differs from the sequential interpreter's")
+		cur = next
+	}
+	path := vfChoice("path", 4)
+	if path >= 1 {
+		// re-entrant re-lock carrying an operation: depth 2
+		d, next := opData("relock")
+		r := env.newCmd(protocol.COMMAND_LOCK, key, vfLockId(1))
+		r.Flag, r.Count, r.Rcount, r.Expried, r.ExpriedFlag = protocol.LOCK_FLAG_CONTAINS_DATA, 0xffff, 3, 100, 0x0200
+		r.Data = d
+		n := len(env.replies)
+		env.lock(0, r)
+		check("a re-entrant re-lock", n, next)
+	}
+	d, next := opData("unlock")
+	u := env.newCmd(protocol.COMMAND_UNLOCK, key, vfLockId(1))
+	u.Flag = protocol.UNLOCK_FLAG_CONTAINS_DATA
+	u.Data = d
+	what := "an unlock"
+	switch path {
+	case 2:
+		u.Rcount = 1
+		what = "an unlock of one re-entrant level"
+	case 3:
+		u.Rcount = 0
+		what = "an unlock of all re-entrant levels at once"
+	}
+	n := len(env.replies)
+	env.unlock(0, u)
+	check(what, n, next)
+	vfReach("end")
+}
